@@ -281,3 +281,15 @@ Proof.
   exact (ed_decode_then_encode s2 p D2 B2 C2 (or_introl X)).
 Qed.
 Print Assumptions C20_decode_injective_on_canonical.
+
+(* ---- the scalar recoding of geScalarMult (signed radix-16 digits, Models/Ed.v) *)
+From DosVerif Require Import Proofs.EdDigits.
+
+(* for every scalar below 2^255 (every reduced scalar is): 64 digits, each in -8..8 - the range the
+   table 1A..8A and selectCached cover - and sum e_i 16^i is the scalar *)
+Theorem C20_scalar_digits :
+  forall a, 0 <= a < 2 ^ 255 ->
+  eval_lsf (rev (digits_msf a)) = a /\ length (digits_msf a) = 64%nat /\
+  Forall (fun d => -8 <= d <= 8) (digits_msf a).
+Proof. exact digits_represent. Qed.
+Print Assumptions C20_scalar_digits.
